@@ -738,12 +738,41 @@ def rule_inverse_cleanup(ctx: Ctx, rule: str) -> None:
            'not nested: the joined rest is followed by _EOP (name mode) / self.path_eop (path mode); nested: by nothing',
            'as expected' if not bad_end else '; '.join(bad_end[:2]),
            witness="globmatch('ab/', '!(a)', EXTGLOB): in path mode the negation must also stop at a separator")
+    from ..symeval import focus
     quiet = [p for p in paths if _dec(p, lambda k: k == 'self.inv_ext') is False]
     busy = [p for p in paths if _dec(p, lambda k: k == 'self.inv_ext') is True]
     okq = bool(quiet) and all(len(p.events) == 1 for p in quiet)
-    okb = bool(busy) and all(p.of('store') and p.of('store')[-1][1:3] == ('self.inv_ext', 0) and not p.of('store')[-1][4] for p in busy)
+    # accounting: the counter goes down by the number of groups closed here -- groups still open in an enclosing list stay counted
+    import re as _re
+    bad_acc = []
+    for p in busy:
+        focus(p)
+        stores = [e for e in p.events if e[0] == 'store' and e[1] == 'self.inv_ext']
+        wrote = bool(p.of('setitem'))
+        ends = [e for e in p.of('iterend') if e[2] == 'next']
+        if len(stores) != 1:
+            bad_acc.append(f'{len(stores)} writes of self.inv_ext on a path')
+            continue
+        t = _tag(stores[0][2])
+        after_loop = not ends or p.events.index(stores[0]) > p.events.index(ends[-1])
+        m = _re.fullmatch(r'\(self\.inv_ext-(loop@\w+:(\w+))\)', t)
+        if after_loop and m:
+            for e in ends:
+                now = _tag(e[3].get(m.group(2), Opaque(m.group(1))))
+                want = f'({m.group(1)}+1)' if wrote else m.group(1)
+                if now != want:
+                    bad_acc.append(f'closed a group={wrote}: the count of closed groups becomes {now}')
+        elif after_loop and t in ('self.inv_ext', '(self.inv_ext-0)') and not ends:
+            pass  # no iteration: nothing closed, nothing subtracted
+        elif not after_loop and t == '(self.inv_ext-1)' and wrote:
+            pass  # decremented where the group is closed
+        else:
+            bad_acc.append(f'self.inv_ext = {t}' + ('' if after_loop else ' inside an iteration that closes no group' if not wrote else ''))
+    okb = bool(busy) and not bad_acc
     ctx.ob(rule, f'{WP}:WcParse.clean_up_inverse/counter', okq and okb and len(quiet) + len(busy) == len(paths), site,
-           'returns without effect when no inverse group is open; otherwise clears inv_ext after the scan', f'quiet={okq} busy={okb}')
+           'returns without effect when no inverse group is open; otherwise inv_ext is reduced by exactly the number of placeholders rewritten in this list',
+           f'quiet={okq} busy={okb}' + (f': {sorted(set(bad_acc))[0]}' if bad_acc else ''),
+           witness="fnmatch('b', '!(a)@(@(b))', EXTMATCH) must not raise re.error: the inner list has no placeholder, the outer `!(a)` is still open")
     ctx.ob(rule, f'{WP}:WcParse.clean_up_inverse/close-template', not bad_close, site,
            "placeholder := ''.join(rest)… + _EXCLA_GROUP_CLOSE.format(str(placeholder))", 'as expected' if not bad_close else bad_close[0],
            witness="fnmatch('b', '!(a)', E): the placeholder carries the star that follows the assertion")
@@ -763,7 +792,7 @@ def rule_sequence_shape(ctx: Ctx, rule: str) -> None:
     so = repo.const(WP, 'SET_OPERATORS')
     ctx.ob(rule, f'{WP}:SET_OPERATORS', so == frozenset(('&', '~', '|')), repo.loc(WP, repo.const_line(WP, 'SET_OPERATORS')), "{'&', '~', '|'}", str(sorted(so)),
            witness="fnmatch('&', '[&&]') must not trigger Python's nested-set syntax")
-    seqrules.rule_scan_loops(ctx, rule, which={'set-operators-escaped', 'posix-marker-cleared', 'posix-in-loop'})
+    seqrules.rule_scan_loops(ctx, rule, which={'set-operators-escaped', 'posix-marker-cleared', 'posix-in-loop', 'range-end-cleared-by-posix'})
     hy = [s for s in q.stmts(lambda n: isinstance(n, ast.Expr)) if norm_src(s.value) == "result.append('\\\\' + c)" and ("c == '-'", 'T') in q.guards(s)]
     ctx.ob(rule, f'{WP}:WcParse._sequence/literal-hyphen-escaped', len(hy) >= 2, repo.loc(WP, sq.node), "a `-` that is not a range delimiter is emitted as `\\-`", str(len(hy)),
            witness="fnmatch('-', '[a-c-]') must be True and must not create a second range")
